@@ -261,6 +261,16 @@ Example C19_conv_from_source_example :
   srun go_modbus_RegsToUint32 [[1; 2; 3]%Z] = Some [65538%Z].
 Proof. repeat split; vm_compute; reflexivity. Qed.
 
+(* the frame check of the RTU transport from the source: modbus.CheckRtuCrc as printed from modbus/crc.go (it calls the
+   printed RtuCrc on the packet without its last two bytes and reads those two big-endian) returns the error that the
+   model's check_rtu_crc names -- nil, ErrNotEnoughData or ErrCRC -- for every packet of bytes, and leaves the packet as it was.
+   check_rtu_crc is what rtu_decode, and with it C19_frames_rejected, is built on.  Proof: Anchors/TieCheckCrc.v. *)
+From Verif Require Import Anchors.TieCheckCrc.
+Theorem C19_check_crc_from_source : forall p : list N, Forall (fun b => (b < 256)%N) p -> packet_len_ok p ->
+  srun_inplace go_modbus_CheckRtuCrc [map Z.of_N p] = Some (0%Z, err_of (check_rtu_crc p), map Z.of_N p).
+Proof. exact go_CheckRtuCrc_is_model. Qed.
+Print Assumptions C19_check_crc_from_source.
+
 (* ---------- a register map that grows while the server is serving (Regs.AddReg between requests) ----------
    adding a register changes nothing that the map already held, for registers and for coils; a new register reads 0
    (Modbus/GrowProofs.v).  The sessions of the check add registers between calls (call 7) and the theorems above
